@@ -116,6 +116,55 @@ def touch(t, how, atm):
         t.get_table_density()
 
 
+def _doc_equal(d1, d2):
+    """two emitted documents (symbolic text or str): same literal text, same conversions, holes carrying equal terms"""
+    from sx import text as T
+    p1 = d1.parts if isinstance(d1, T.SText) else [d1]
+    p2 = d2.parts if isinstance(d2, T.SText) else [d2]
+    if len(p1) != len(p2):
+        return False, []
+    eqs = []
+    for x, y in zip(p1, p2):
+        if isinstance(x, str) or isinstance(y, str):
+            if x != y:
+                return False, []
+        elif (x.kind, x.spec) != (y.kind, y.spec):
+            return False, []
+        else:
+            eqs.append(eq(x.term, y.term))
+    return True, eqs
+
+
+def _exports_agree(A, Bt, sig, with_hdf5):
+    import datetime
+    date = datetime.datetime(2020, 2, 3, 4, 5, 6)
+    for name, fn in (('tsv', lambda t: t.to_tsv()), ('json', lambda t: t.to_json('g', creation_date=date))):
+        (d1, e1), (d2, e2) = call(lambda: fn(A)), call(lambda: fn(Bt))
+        if e1 is not None or e2 is not None:
+            fail('export:raised', f"{name}: {e1!r} {e2!r}"[:160], **sig)
+            continue
+        ok, eqs = _doc_equal(d1, d2)
+        if not ok:
+            fail('export:' + name + '-text-differs', f"{d1!r}"[:80] + ' vs ' + f"{d2!r}"[:80], **sig)
+        else:
+            prove('export:' + name + '-values', and_(*eqs), **sig)
+    if with_hdf5:
+        from checks.h5spec import new_store, decode
+        outs = []
+        for t in (A, Bt):
+            st = new_store()
+            _, e = call(lambda: t.to_hdf5(st, 'g', creation_date=date))
+            if e is not None:
+                fail('export:raised', f"hdf5: {e!r}"[:160], **sig)
+                return
+            outs.append(decode('export:hdf5', st, **sig))
+        if outs[0] is None or outs[1] is None:
+            return
+        if outs[0]['observation_ids'] != outs[1]['observation_ids'] or outs[0]['sample_ids'] != outs[1]['sample_ids']:
+            fail('export:hdf5-ids-differ', '', **sig)
+        prove('export:hdf5-values', cells_equal(outs[0]['csr_dense'], outs[1]['csr_dense']), **sig)
+
+
 def h_equal(nr, nc, route, accs=ACCESSORS):
     md = pick(['none', 'both'], 'md')
     A, a = make_table(nr, nc, md=md, zeros=1, type_='OTU table')
@@ -165,6 +214,10 @@ def h_equal(nr, nc, route, accs=ACCESSORS):
     if not (A == Bt):
         fail('eq:after-queries', '', **sig)
     same_table('eq:content', observe(Bt), a, type_=True, **sig)
+    # tables that compare equal export the same IDs, values and metadata
+    if not a.samp_ids or not a.obs_ids:
+        return
+    _exports_agree(A, Bt, sig, with_hdf5=(len(accs) == len(ACCESSORS)))
 
 
 DIFFS = ['value', 'value-to-zero', 'zero-to-value', 'obs-id', 'samp-id', 'obs-order', 'samp-order', 'md-entry', 'md-missing', 'type']
@@ -249,13 +302,13 @@ OPTS = {'quick': {'time_budget': 70}, 'thorough': {'time_budget': 900}}
 META = {
     'explanation': "C16: pairs of tables sharing the SAME symbolic dense matrix but built through different routes (sparse layouts, index orders, "
                    "explicit zeros, dense / triple / COO constructor input, sort+inverse, filter-keeping-all, copy) with read accessors interleaved "
-                   "must compare equal (both directions, !=, reflexive, copy, transitive through the copy) and answer per-ID / per-cell queries with "
-                   "the same terms; pairs assumed to differ in exactly one value / ID / order / metadata entry / type must compare unequal.",
+                   "must compare equal (both directions, !=, reflexive, copy, transitive through the copy), answer per-ID / per-cell queries with "
+                   "the same terms and export the same TSV / JSON documents (symbolic documents compared chunk by chunk, holes by the solver; HDF5 stores in the thorough tier); pairs assumed to differ in exactly one value / ID / order / metadata entry / type must compare unequal.",
     'encoded': {'biom/table.py': ['__eq__', '__ne__', 'descriptive_equality', '_data_equality', 'nnz', 'data', 'get_value_by_ids', 'copy',
                                   '__init__', '_to_sparse', 'nparray_to_sparse', 'list_list_to_sparse', 'sort_order', 'filter',
                                   'get_table_density', 'iter', 'sum']},
     'bounds': {'quick': {'shapes': '2x2, <=1 explicit zero per table, 10 construction routes x 8x8 accessor interleavings'},
                'thorough': {'shapes': '2x2, 2x3, 3x2'}},
-    'outside': ['NaN values', 'export equality of TSV/JSON/HDF5 text is covered in C02/C03/C04 through the content-only oracles (same document for every representation)'],
+    'outside': ['NaN values', 'HDF5 export equality in the quick tier (thorough only; C04 proves the written content is a function of the content for every representation)'],
     'assumptions': ['scipy.sparse model of != / tocsr / eliminate_zeros'],
 }
